@@ -23,7 +23,8 @@ ASSUMPTIONS = [
     "surplus arguments are unjudged; recursive macros are judged by the reference expansion only",
 ]
 WEIGHTS = dict(macro=3, call=6, ins=3, data=5, label=3, block=1.5, scope=0.6, assign=2.5, sym=0.8, if_=0.8, for_=0.8, org=0.2, reloc=0.1,
-               ascii=0.3, branch=0.3)
+               ascii=0.3, branch=0.3,
+               table=0.2, text=0.4, incbin=0.25, include=0.3, include_ips=0.15)      # every statement kind appears, the rare ones rarely
 
 
 def plan(tier: str, seed: int) -> list[dict]:
